@@ -11,8 +11,8 @@ CONSTANTS MaxSecs, MaxLevel, Sim
 Titles == << "One", "A & B", "Q \"uote\" 'x'", "T<ag> >", "Caf~E", "C#", "# starts with a hash", "### and a longer run", "arrow ~>" >>
 HashStart == {7, 8}   \* titles that begin with a run of '#' and a blank: text after the opening marker (as a Setext heading the line would itself be an ATX heading)
 HashEnd == {6}        \* titles that end in '#': unambiguous only with closing hashes or as Setext headings
-Bodies == << "plain body\n\n", "a & b < c > \"q\" 'x' &amp; &#10;\n\n", "", "tab\there  two\nline2\n\n", "* item <b>\n* two\n\n", "    code & <pre>\n\n", "form~Ffeed and~Vvertical tab, unit~Useparator\n\n" >>      \* (~F ~V ~U: form feed, vertical tab, 0x1F -- written by the check)
-Pres   == << "", "pre <amble> & \"text\"\n\n", "\n\nNote: this opening paragraph follows two blank lines and looks like a key\n\n" >>
+Bodies == << "plain body\n\n", "a & b < c > \"q\" 'x' &amp; &#10;\n\n", "", "tab\there  two\nline2\n\n", "* item <b>\n* two\n\n", "    code & <pre>\n\n", "form~Ffeed and~Vvertical tab, unit~Useparator\n\n", "    code first\n\nthen text\n\n" >>      \* (~F ~V ~U: form feed, vertical tab, 0x1F -- written by the check)
+Pres   == << "", "pre <amble> & \"text\"\n\n", "\n\nNote: this opening paragraph follows two blank lines and looks like a key\n\n", "    indented opening lines\n\n  text\n\n" >>
 Metas  == << <<>>, << [k |-> "Title", n |-> "title", v |-> "My Title"] >>, << [k |-> "Title", n |-> "title", v |-> "T <1>"], [k |-> "Author", n |-> "author", v |-> "A \"B\" C"] >>,
            << [k |-> "Title", n |-> "title", v |-> "B"], [k |-> "Base Header Level", n |-> "baseheaderlevel", v |-> "2"] >>,
            \* keys that re-configure other writers must not touch this one
@@ -24,7 +24,10 @@ Rep(c, n) == IF n = 0 THEN "" ELSE c \o Rep(c, n - 1)
 HeadSrc(s) == CASE s.style = "atx"  -> Rep("#", s.lvl) \o " " \o Titles[s.t] \o "\n"
                 [] s.style = "atxc" -> Rep("#", s.lvl) \o " " \o Titles[s.t] \o " " \o Rep("#", s.lvl) \o "\n"
                 [] OTHER            -> Titles[s.t] \o "\n" \o (IF s.lvl = 1 THEN "=====" ELSE "-----") \o "\n"
-SecSrc(s) == HeadSrc(s) \o "\n" \o Bodies[s.b]
+\* tight (optional field): the body follows the heading line at once, without a blank line between them -- the note then begins with the body's own first character
+Tight(s) == "tight" \in DOMAIN s
+Gap(s) == IF Tight(s) THEN "" ELSE "\n"
+SecSrc(s) == HeadSrc(s) \o Gap(s) \o Bodies[s.b]
 MetaSrc(m) == IF m = <<>> THEN "" ELSE Cat([i \in 1 .. Len(m) |-> m[i].k \o ": " \o m[i].v \o "\n"]) \o "\n"
 \* cut (optional field): the text ends right after the title of the last heading (which has an empty body) -- no final newline
 Cut(d) == "cut" \in DOMAIN d
@@ -38,7 +41,7 @@ PopTo(st, lvl) == IF st # <<>> /\ st[Len(st)] >= lvl THEN PopTo(SubSeq(st, 1, Le
 RECURSIVE Items(_, _, _)
 Items(secs, i, st) == IF i > Len(secs) THEN <<>>
                       ELSE LET st2 == Append(PopTo(st, secs[i].lvl), secs[i].lvl) IN
-                           << <<Len(st2), Titles[secs[i].t], "\n" \o Bodies[secs[i].b]>> >> \o Items(secs, i + 1, st2)
+                           << <<Len(st2), Titles[secs[i].t], Gap(secs[i]) \o Bodies[secs[i].b]>> >> \o Items(secs, i + 1, st2)
 \* whatever lies between the metadata block and the first heading (at least the blank line that ends the block) is the preamble item
 PreText(d) == (IF Metas[d.m] = <<>> THEN "" ELSE "\n") \o Pres[d.p]
 PreItem(d) == IF PreText(d) = "" THEN <<>> ELSE << <<1, ">>Preamble<<", PreText(d)>> >>
@@ -62,7 +65,9 @@ Next == /\ Len(doc.secs) < MaxSecs
              \E t \in (IF Sim THEN {RandomElement(1 .. Len(Titles))} ELSE {((n + l) % Len(Titles)) + 1}),
                 b \in (IF Sim THEN {RandomElement(1 .. Len(Bodies))} ELSE {((2 * n + l + doc.m) % Len(Bodies)) + 1}),
                 s \in (IF Sim THEN {RandomElement(Styles(l))} ELSE {CHOOSE x \in Styles(l) : x = (IF (n + doc.p) % 3 = 0 /\ l <= 2 THEN "setext" ELSE IF (n + l) % 2 = 0 THEN "atx" ELSE "atxc")}) :
-                doc' = [doc EXCEPT !.secs = Append(@, [lvl |-> l, t |-> t, b |-> b, style |-> IF t \in HashEnd /\ s = "atx" THEN "atxc" ELSE IF t \in HashStart /\ s = "setext" THEN "atx" ELSE s])]
+                LET sec == [lvl |-> l, t |-> t, b |-> b, style |-> IF t \in HashEnd /\ s = "atx" THEN "atxc" ELSE IF t \in HashStart /\ s = "setext" THEN "atx" ELSE s]
+                    tg == IF Sim THEN RandomElement({TRUE, FALSE, FALSE}) ELSE (n + 2 * l + doc.m) % 3 = 0 IN
+                doc' = [doc EXCEPT !.secs = Append(@, IF tg /\ Bodies[b] # "" THEN sec @@ [tight |-> TRUE] ELSE sec)]
 \* deep outlines: every level down to 6 with k sections on each level (siblings on the whole path), and saw-tooth shapes at the bottom
 RECURSIVE Stair(_, _, _)
 Stair(l, d, k) == IF l > d THEN <<>> ELSE [j \in 1 .. k |-> l] \o Stair(l + 1, d, k)
